@@ -168,7 +168,9 @@ def exhaustive(sh, N, cap_prod):
                     rises = [m for m, (a, b, kd) in zip(combo, flanks) if kd == 't']
                     decays = [m for m, (a, b, kd) in zip(combo, flanks) if kd == 'p']
                     call(sh, n, peaks, troughs, rises, decays, 'exhaustive')
-                    tot += 1
+                    call(sh, n, peaks, troughs, rises, None, 'exhaustive')        # one family of midpoints only
+                    call(sh, n, peaks, troughs, None, decays, 'exhaustive')
+                    tot += 3
                 if len(peaks) >= 2 and len(troughs) >= 2:
                     nt += 1
                     sh.nontrivial.add('x%d:%d:%s' % (n, pid, first_kind))
@@ -201,13 +203,16 @@ def run(sh):
             continue
         if len(p) < 1 or len(t) < 1:
             continue
-        with_mid = rng.random() < 0.6
+        mode = ['none', 'both', 'both', 'rises_only', 'decays_only'][int(rng.integers(0, 5))]
+        with_mid = mode != 'none'
         before = attach.COUNTS['C17:outside_quantifier']
-        call(sh, len(sig), p, t, r if with_mid else None, d if with_mid else None, 'generated', sig=sig)
+        call(sh, len(sig), p, t, r if mode in ('both', 'rises_only') else None, d if mode in ('both', 'decays_only') else None,
+             'generated', sig=sig)
+        sh.note('generated:midpoints=' + mode)
         inq = attach.COUNTS['C17:outside_quantifier'] == before
         sh.note('generated:%s' % ('in_quantifier' if inq else 'outside_quantifier'))
         sh.case_done(None, inq and len(p) >= 2 and len(t) >= 2, key='g%d:%d' % (sh.shard, it),
-                     sample={'family': kind, 'n': len(sig), 'first_extrema': fe, 'boundary': boundary, 'midpoints': bool(with_mid),
+                     sample={'family': kind, 'n': len(sig), 'first_extrema': fe, 'boundary': boundary, 'midpoints': mode,
                              'peaks': [int(v) for v in p[:3]], 'troughs': [int(v) for v in t[:3]],
                              'last_extrema': [int(p[-1]), int(t[-1])]})
     for k, v in attach.COUNTS.items():
